@@ -320,7 +320,8 @@ META = {
     "text": "Clause-only: decides that the quantum-number metadata is transformed and stored consistently with the tensors at every place that "
             "creates or combines bond labels (the mechanism that keeps amplitudes inside the sector). Whether a given Hamiltonian conserves the "
             "charge and whether numerical blocks are exactly zero is not decided."
-            ' The sector mask and label-merge helpers (get_qn_mask, add_outer) are decided by abstract runs.',
+            ' The sector mask and label-merge helpers (get_qn_mask, add_outer) are decided by abstract runs.'
+            ' The product-state constructor is interpreted as a whole on exact data: site vectors inside one sector are accepted with running-sum labels, vectors over local states of different quantum numbers are refused (one- and two-component charges).',
     "note": "Decomposition sites are a frozen table (10 functions); a new svd_qn/eigh_qn call site stops the analysis until classified.",
     "design_ref": "DESIGN.md 3.4, 3.9, 4 (C06); as built: 9.1, 9.3, 9.8",
 }
